@@ -285,7 +285,9 @@ def tlc(module, cfg, tag, workers=8, simulate=None, depth=None, env=None, timeou
     shutil.rmtree(meta, ignore_errors=True)
     os.makedirs(meta, exist_ok=True)
     gc = ["-XX:+UseSerialGC"] if workers == 1 else ["-XX:+UseParallelGC", "-XX:ParallelGCThreads=4"]
-    cmd = ["java", *gc, f"-Xmx{heap}", "-Xss512m"] + (java_opts or []) + [
+    # (SANY unpacks the standard modules into a fresh directory of java.io.tmpdir at every start and leaves it there:
+    # kept inside this run's metadir, which is removed when the same tag runs again)
+    cmd = ["java", *gc, f"-Xmx{heap}", "-Xss512m", f"-Djava.io.tmpdir={meta}"] + (java_opts or []) + [
         "-cp", TLA_CP, "tlc2.TLC", "-workers", str(workers), "-metadir", meta, "-cleanup",
         "-noGenerateSpecTE", "-config", cfg]
     if coverage:
